@@ -439,6 +439,15 @@ class PVLEncoder(object):
         """Returns a ``str`` formatted as a PVL Time based
         on the *value* object according to the rules of this encoder.
         """
+        if isinstance(value, datetime.time) and value.utcoffset():
+            # PVL times are always UTC and are written without a
+            # time zone, so an aware time with another offset must
+            # be converted, otherwise it denotes a different time.
+            shifted = datetime.datetime.combine(
+                datetime.date(2000, 1, 2), value.replace(tzinfo=None)
+            ) - value.utcoffset()
+            value = shifted.time()
+
         s = f"{value:%H:%M}"
 
         if value.microsecond:
@@ -452,6 +461,14 @@ class PVLEncoder(object):
         """Returns a ``str`` formatted as a PVL Date/Time based
         on the *value* object according to the rules of this encoder.
         """
+        if value.utcoffset():
+            # See encode_time().
+            try:
+                value = value.astimezone(datetime.timezone.utc)
+            except OverflowError as err:
+                raise ValueError(
+                    f"Cannot convert {value} to UTC: {err}"
+                ) from err
         date = self.encode_date(value)
         time = self.encode_time(value)
         return date + "T" + time
@@ -770,7 +787,7 @@ class ODLEncoder(PVLEncoder):
                 f"have a timezone offset: {value}"
             )
 
-        t = super().encode_time(value)
+        t = super().encode_time(value.replace(tzinfo=None))
 
         if value.utcoffset() == datetime.timedelta():
             return t + "Z"
@@ -789,6 +806,12 @@ class ODLEncoder(PVLEncoder):
                 return t + f"{sign}{h:02d}"
             else:
                 return t + f"{sign}{h:02d}:{m:02d}"
+
+    def encode_datetime(self, value: datetime.datetime) -> str:
+        """Overrides parent function since ODL writes the time zone
+        offset, and therefore does not convert to UTC.
+        """
+        return self.encode_date(value) + "T" + self.encode_time(value)
 
     def encode_units(self, value) -> str:
         """Overrides parent function since ODL limits what characters
